@@ -22,11 +22,11 @@ def run(ctx):
               "replayed on a real SoftwareSwitch over OpenFlow bytes; distinct = distinct "
               "action/argument sequences; non-trivial = contains at least one buffer use or "
               "controller-bound frame")
-  ctx.assumptions = ["bounds: pools N<=%d, 2 frame lengths (60,200), 3 ports" % (3 if quick else 4),
+  ctx.assumptions = ["bounds: pools N<=2 with 2 frame lengths (60,200), 3 ports, 3 miss lengths; N<=3 with action lists over 1 frame, 2 ports",
                      "buffer ids are bound dynamically to spec slots",
                      "OpenFlow bytes built/decoded by harness/rawbytes.py (struct only)"]
   # 1. the property on the model
-  for n in ([0, 1, 2] if quick else [0, 1, 2, 3]):
+  for n in [0, 1, 2]:        # N=3 (and the lists) with reduced constants below
     r = tlc.run("buffers", "MCBuffers", "MC_N%d.cfg" % n, tag="C18", timeout=3000)
     if r.violated:
       raise tlc.TLCError("spec violates its own property %s:\n%s" % (r.violated, r.error_trace))
@@ -40,7 +40,7 @@ def run(ctx):
     tlc.require_coverage(r, ACTIONS + ["UseL", "PacketOutDataL", "RxL"], "Buffers with action lists " + c)
     ctx.add_model("Buffers with action lists " + c, r)
   # 2. spec -> code: every transition of the abstract graph
-  for n in ([0, 1, 2] if quick else [0, 1, 2, 3]):
+  for n in [0, 1, 2]:
     r = tlc.run("buffers", "MCBuffers", "EX_edges_N%d.cfg" % n, workers=1, coverage=False, tag="C18")
     behs = [sort_sets(b) for b in r.tagged("T")]
     if not behs:
